@@ -18,6 +18,8 @@ ASSUMPTIONS = ['allocation failure and write-side faults after a successful open
                'a never-closing stdin is not generated (waiting for a writer is not a hang of kalign)',
                'hang = wall-clock watchdog (20 s per run) or scheduler step budget']
 
+STOP_JOB_AFTER_TIMEOUT = True
+
 GATING_FAULTS = ['stat:ENOENT', 'stat:EACCES', 'openr:ENOENT', 'openr:EACCES', 'openr:EMFILE', 'input_is_dir',
                  'openw:ENOENT', 'openw:EACCES', 'openw:EISDIR', 'openw:EROFS', 'stdin:closed', 'stdin:empty', 'stdin:data', 'read:EIO']
 
@@ -547,6 +549,8 @@ def judge(spec, results):
 
     ocs = {}
     for tag, r in results.items():
+        if tag not in bytag:
+            continue
         ix = bytag[tag][3]
         fault = None
         if tag.startswith('f') and tag[1:].isdigit():
